@@ -680,7 +680,7 @@ func runC03(c *Ctx) {
 		}
 		c.DistinctCase(fmt.Sprint("two-builders", i))
 	}
-	c.Rep.Rule = "whole controller against the fake API server in a synctest bubble (virtual time): seeded random server histories over 2 namespaces x 3 names in three phases (creates, label changes, deletes, objects entering graceful deletion: a deletionTimestamp, still listed); refresh periods {2s,7s}; list latency {0, 1/2, 3/2} period; controller filters {none, Labels, Not(NSName)}; watch behaviour {healthy, never connects, connect hangs until cancelled, closes after every 2 events, drops events, duplicates events, status/bookmark frames, mixed, replays old history (also on a quiet server, where the next list carries an unchanged resourceVersion), bursts of 220-320 changes against a slow controller (the session's and the watcher's buffers overflow and events are lost), lists that carry no collection resourceVersion}; 4 levels of logger-driven schedule perturbation. With the watch out of action: after every completed list cache = that list's accepted objects. After each phase: once a list that started after the server quiesced completes, cache = server's accepted objects, subscriber mirror = cache with well-formed strictly-newer events, no event before Ready, Close returns. Plus a targeted scenario: a watch event that the next list contradicts sits in the watcher's buffer while the controller is busy (slow filter) and the stream stalls; after that list cache = list. Plus a sustained flood of watch frames against a slow controller (8 s): relisting goes on and Close() is served. Plus two builders configured side by side before either controller is created: each controller follows its own server at its own refresh period. The converged cache is compared with the extracted model's relist_outcome. Non-trivial = run with >= 3 lists. Plus two controllers on ONE client.Client with both List calls in flight (held by the server), one of them closed / cancelled meanwhile, at the first list and at a relist: the other becomes (stays) ready, holds the server's content and goes on relisting. Every second fake server hands out an opaque collection resourceVersion (rv-<n>) and takes it back at Watch. Frame kinds now include ERROR frames whose payload is not a Status (undecodable, an API object, nothing)."
+	c.Rep.Rule = "whole controller against the fake API server in a synctest bubble (virtual time): seeded random server histories over 2 namespaces x 3 names in three phases (creates, label changes, deletes, objects entering graceful deletion: a deletionTimestamp, still listed); refresh periods {2s,7s}; list latency {0, 1/2, 3/2} period; controller filters {none, Labels, Not(NSName)}; watch behaviour {healthy, never connects, connect hangs until cancelled, closes after every 2 events, drops events, duplicates events, status/bookmark frames, mixed, replays old history (also on a quiet server, where the next list carries an unchanged resourceVersion), bursts of 220-320 changes against a slow controller (the session's and the watcher's buffers overflow and events are lost), lists that carry no collection resourceVersion}; 4 levels of logger-driven schedule perturbation. With the watch out of action: after every completed list cache = that list's accepted objects. After each phase: once a list that started after the server quiesced completes, cache = server's accepted objects, subscriber mirror = cache with well-formed strictly-newer events, no event before Ready, Close returns. Plus a targeted scenario: a watch event that the next list contradicts sits in the watcher's buffer while the controller is busy (slow filter) and the stream stalls; after that list cache = list. Plus a sustained flood of watch frames against a slow controller (8 s): relisting goes on and Close() is served. Plus two builders configured side by side before either controller is created: each controller follows its own server at its own refresh period. The converged cache is compared with the extracted model's relist_outcome. Non-trivial = run with >= 3 lists. Plus two controllers on ONE client.Client with both List calls in flight (held by the server), one of them closed / cancelled meanwhile, at the first list and at a relist: the other becomes (stays) ready, holds the server's content and goes on relisting. Every second fake server hands out an opaque collection resourceVersion (rv-<n>) and takes it back at Watch. Frame kinds now include ERROR frames whose payload is not a Status (undecodable, an API object, nothing). A LIST that names a resourceVersion is answered with the state AT that version (the library lists without one)."
 	c.Rep.Stats["runs"] = runs
 }
 
@@ -992,7 +992,7 @@ func runC14(c *Ctx) {
 		}
 		c.DistinctCase(fmt.Sprint("close-before-ready-", variant))
 	}
-	c.Rep.Rule = "whole controller (with a tree of a subscription, a clone with a filtered subscription, a for-filter clone and a monitor attached) against the fake API server in virtual time: every list failure kind {List error, context.Canceled as an error, Kubernetes Status errors 429 TooManyRequests / ServerTimeout / 504 Timeout / 404 NotFound / 403 Forbidden / 410 Gone, object that is not a list, list type without items, list of non-objects} injected at the k-th list (k=1..3/4) under {healthy watch, connect errors, stream closes}; and no list failure with every watch failure kind {connect errors, always failing, stream closes, status/bookmark/unknown frames} with triggers {none, Close, context cancel}. Observed: Ready, Done, Error (cause by identity), descendants' Done; compared with the extracted controller model (krun) on the same input sequence. Non-trivial = every scenario (each has a distinct expected outcome); distinct by scenario. Plus two controllers on ONE client.Client with both List calls in flight (held by the server), one of them closed / cancelled meanwhile, at the first list and at a relist: the other becomes (stays) ready, holds the server's content and goes on relisting. Every second fake server hands out an opaque collection resourceVersion (rv-<n>) and takes it back at Watch. The frames mode injects per round the skipped frames (status, bookmark, unknown type, expired / detailed status, an ERROR frame carrying an API object) and then ONE session-ending frame (non-object ADDED payload / ERROR with an undecodable payload / ERROR with no payload), a different one each round."
+	c.Rep.Rule = "whole controller (with a tree of a subscription, a clone with a filtered subscription, a for-filter clone and a monitor attached) against the fake API server in virtual time: every list failure kind {List error, context.Canceled as an error, Kubernetes Status errors 429 TooManyRequests / ServerTimeout / 504 Timeout / 404 NotFound / 403 Forbidden / 410 Gone, object that is not a list, list type without items, list of non-objects} injected at the k-th list (k=1..3/4) under {healthy watch, connect errors, stream closes}; and no list failure with every watch failure kind {connect errors, always failing, stream closes, status/bookmark/unknown frames} with triggers {none, Close, context cancel}. Observed: Ready, Done, Error (cause by identity), descendants' Done; compared with the extracted controller model (krun) on the same input sequence. Non-trivial = every scenario (each has a distinct expected outcome); distinct by scenario. Plus two controllers on ONE client.Client with both List calls in flight (held by the server), one of them closed / cancelled meanwhile, at the first list and at a relist: the other becomes (stays) ready, holds the server's content and goes on relisting. Every second fake server hands out an opaque collection resourceVersion (rv-<n>) and takes it back at Watch. The frames mode injects per round the skipped frames (status, bookmark, unknown type, expired / detailed status, an ERROR frame carrying an API object) and then ONE session-ending frame (non-object ADDED payload / ERROR with an undecodable payload / ERROR with no payload), a different one each round. Plus Close() before the first list has returned (at once / list in flight / list released right after): done, Error() nil, not ready."
 	c.Rep.Stats["runs"] = runs
 	c.Sample(map[string]interface{}{"scenario": "list error at list 2", "expected": "Done closed, Error cause = injected error, ready stays true, subtree done"})
 }
